@@ -32,6 +32,7 @@ META = {
         "R17": "orientation parity by path enumeration over the flag space",
         "R3a": "typesGH positional schema agreement of secondary writers/readers",
         "SRC": "def-use: which object reaches which callee argument",
+        "R2": "matcher wiring: the labels an embedding search compares",
     },
     "not_decided": "element/charge balance of outputs and isomorphism of the result's centre with the template's (runtime values through RDKit and VF2); wildcard branches of _node_glue",
     "trusted_base": ["CPython ast", "sa/* analyser", "copy.deepcopy / nx.Graph.copy produce independent node/edge attribute dicts"],
@@ -52,6 +53,7 @@ def run(rep):
     rep.run(parity)
     rep.run(schema)
     rep.run(wiring)
+    rep.run(matcher_labels)
     rep.run(strip_h)
 
 
@@ -543,6 +545,37 @@ def _writer_order(rep):
 
 
 # ------------------------------------------------------------------ O3.6
+def matcher_labels(rep):
+    """Every embedding search the reactor starts (first match, and the re-match of templates that keep an explicit hydrogen) compares bond orders:
+    an embedding that ignores them places a single-bond pattern on a double bond, and gluing then rewrites a substrate bond the rule never
+    mentions - the reactant side of the result is no longer the substrate."""
+    n = 0
+    for q in ("SynReactor.mappings", "SynReactor._get_explicit_map"):
+        fi = rep.repo.maybe_func(SR, q)
+        if fi is None:
+            continue
+        d = local_defs(fi.node)
+        for c in walk_local(fi.node):
+            if not (isinstance(c, ast.Call) and call_name(c) in ("find_subgraph_mappings", "PartialMatcher")):
+                continue
+            ea = kwarg(c, "edge_attrs")
+            if ea is None:
+                continue
+            n += 1
+            src = origin(d, ea)
+            while isinstance(src, ast.Call) and isinstance(src.func, ast.Name) and src.func.id in ("list", "tuple") and len(src.args) == 1:
+                src = origin(d, src.args[0])
+            if isinstance(src, ast.Name) and src.id not in d:
+                tops = [st.value for st in fi.module.tree.body if isinstance(st, ast.Assign) and len(st.targets) == 1 and norm(st.targets[0]) == src.id]
+                src = tops[0] if len(tops) == 1 else src
+            keys = None
+            if isinstance(src, (ast.List, ast.Tuple)) and all(isinstance(e, ast.Constant) for e in src.elts):
+                keys = [e.value for e in src.elts]
+            rep.ob("O3.6", "R2", fi, None if keys is None else ("order" in keys), c,
+                   "the embedding search compares bond orders (edge_attrs includes 'order')", {"edge_attrs": keys}, node=c)
+    rep.need("R2", n, 2, "embedding searches with edge_attrs in SynReactor")
+
+
 def wiring(rep):
     il = rep.f(SR, "SynReactor.its_list")
     defs = local_defs(il.node)
